@@ -37,10 +37,27 @@ fn with_fsize_zero<T>(f: impl FnOnce() -> T) -> T {
     }
 }
 
+/// run `f` while the process file-size limit is `limit` bytes: a write that would extend a file
+/// beyond it is cut short by the OS (the first `write(2)` is partial, the retry fails with EFBIG).
+fn with_fsize_limit<T>(limit: u64, f: impl FnOnce() -> T) -> T {
+    unsafe {
+        libc::signal(libc::SIGXFSZ, libc::SIG_IGN);
+        let mut old: libc::rlimit = std::mem::zeroed();
+        libc::getrlimit(libc::RLIMIT_FSIZE, &mut old);
+        let new = libc::rlimit { rlim_cur: limit as libc::rlim_t, rlim_max: old.rlim_max };
+        libc::setrlimit(libc::RLIMIT_FSIZE, &new);
+        let r = f();
+        libc::setrlimit(libc::RLIMIT_FSIZE, &old);
+        r
+    }
+}
+
 struct LiveFile {
     id: usize,
     handles: Vec<Arc<dyn SpillFile>>,
     writer: Option<Box<dyn SpillWriter>>,
+    /// bytes physically in the file (accepted writes + the accepted part of cut-short writes)
+    phys: u64,
 }
 
 fn accounting(run: &mut Run, rng: &mut Rng) {
@@ -68,7 +85,7 @@ fn accounting(run: &mut Run, rng: &mut Rng) {
             let tag: String;
             if live.is_empty() || choice < 15 {
                 let f = dm.create_tmp_file("verif").unwrap();
-                live.push(LiveFile { id: next_id, handles: vec![f], writer: None });
+                live.push(LiveFile { id: next_id, handles: vec![f], writer: None, phys: 0 });
                 req.push_str(" (create)");
                 tag = format!("created:{next_id}");
                 next_id += 1;
@@ -105,8 +122,30 @@ fn accounting(run: &mut Run, rng: &mut Rng) {
                     live[i].writer = Some(live[i].handles[0].open_writer().unwrap());
                 }
                 let buf = vec![0xabu8; n as usize];
+                // fault flavour: whole call fails (limit 0) or the OS cuts the write short
+                // strictly inside the buffer (limit = physical size + k, 0 < k < n)
+                let short = fail && n >= 2 && rng.chance(1, 2);
+                let phys = live[i].phys;
                 let w = live[i].writer.as_mut().unwrap();
-                let res = if fail { with_fsize_zero(|| w.write(&buf)) } else { w.write(&buf) };
+                let res = if short {
+                    let k = 1 + rng.below(n - 1);
+                    let r = with_fsize_limit(phys + k, || w.write(&buf));
+                    // unless the write was rejected by the disk-manager limit before touching
+                    // the file, k bytes are now physically in it, whatever the writer reports
+                    let rejected = matches!(&r, Err(e) if e.to_string().contains("exceeded the allowable limit"));
+                    if !rejected {
+                        live[i].phys = phys + k;
+                        kinds.insert("write-cut-short");
+                    }
+                    r
+                } else if fail {
+                    with_fsize_zero(|| w.write(&buf))
+                } else {
+                    w.write(&buf)
+                };
+                if let (Ok(k), false) = (&res, short) {
+                    live[i].phys += *k as u64;
+                }
                 tag = match res {
                     Ok(k) => {
                         kinds.insert("write-ok");
@@ -151,6 +190,9 @@ fn accounting(run: &mut Run, rng: &mut Rng) {
 
 fn make_batches(rng: &mut Rng, kind: u64) -> (Arc<Schema>, Vec<RecordBatch>) {
     let nb = rng.below(4) as usize + 1;
+    // kinds >= 4 carry view data large enough (> 10 KiB per column) to trigger the pre-spill
+    // view GC, flat and nested under List / Struct / Dictionary parents with their own NULLs
+    let big = kind >= 4;
     let mut mk = |rng: &mut Rng, rows: usize| -> Vec<ArrayRef> {
         let ints: Int64Array = (0..rows).map(|_| if rng.chance(1, 5) { None } else { Some(rng.range(-3, 1000)) }).collect();
         let strs: Vec<Option<String>> = (0..rows)
@@ -158,19 +200,19 @@ fn make_batches(rng: &mut Rng, kind: u64) -> (Arc<Schema>, Vec<RecordBatch>) {
                 if rng.chance(1, 6) {
                     None
                 } else {
-                    let l = *rng.pick(&[0usize, 1, 5, 12, 13, 40]);
+                    let l = if big { *rng.pick(&[13usize, 40, 64]) } else { *rng.pick(&[0usize, 1, 5, 12, 13, 40]) };
                     Some((0..l).map(|_| (b'a' + rng.below(26) as u8) as char).collect())
                 }
             })
             .collect();
         match kind {
             0 => vec![Arc::new(ints), Arc::new(StringArray::from(strs))],
-            1 => vec![Arc::new(ints), Arc::new(StringViewArray::from(strs))],
+            1 | 4 => vec![Arc::new(ints), Arc::new(StringViewArray::from(strs))],
             2 => {
                 let d: DictionaryArray<Int32Type> = strs.iter().map(|s| s.as_deref()).collect();
                 vec![Arc::new(ints), Arc::new(d)]
             }
-            _ => {
+            3 => {
                 let mut b = ListBuilder::new(Int64Builder::new());
                 for _ in 0..rows {
                     if rng.chance(1, 5) {
@@ -184,22 +226,62 @@ fn make_batches(rng: &mut Rng, kind: u64) -> (Arc<Schema>, Vec<RecordBatch>) {
                 }
                 vec![Arc::new(ints), Arc::new(b.finish())]
             }
+            5 => {
+                // List<Utf8View> with NULL lists
+                let mut b = ListBuilder::new(StringViewBuilder::new());
+                for s in &strs {
+                    if rng.chance(1, 4) {
+                        b.append(false);
+                    } else {
+                        for _ in 0..1 + rng.below(2) {
+                            b.values().append_option(s.as_deref());
+                        }
+                        b.append(true);
+                    }
+                }
+                vec![Arc::new(ints), Arc::new(b.finish())]
+            }
+            6 => {
+                // Struct{v: Utf8View} with NULL structs
+                let child: ArrayRef = Arc::new(StringViewArray::from(strs.clone()));
+                let nulls: Vec<bool> = (0..rows).map(|_| !rng.chance(1, 4)).collect();
+                let st = StructArray::new(
+                    vec![Field::new("v", DataType::Utf8View, true)].into(),
+                    vec![child],
+                    Some(arrow::buffer::NullBuffer::from(nulls)),
+                );
+                vec![Arc::new(ints), Arc::new(st)]
+            }
+            _ => {
+                // Dictionary<Int32, Utf8View> with NULL keys
+                let values: ArrayRef = Arc::new(StringViewArray::from(
+                    strs.iter().map(|s| Some(s.clone().unwrap_or_else(|| "a-default-value-longer-than-12".into()))).collect::<Vec<_>>(),
+                ));
+                let keys: Int32Array = (0..rows).map(|i| if rng.chance(1, 4) { None } else { Some(((i * 7) % rows) as i32) }).collect();
+                let d = DictionaryArray::<Int32Type>::try_new(keys, values).unwrap();
+                vec![Arc::new(ints), Arc::new(d)]
+            }
         }
     };
     let f1 = match kind {
         0 => Field::new("s", DataType::Utf8, true),
-        1 => Field::new("s", DataType::Utf8View, true),
+        1 | 4 => Field::new("s", DataType::Utf8View, true),
         2 => Field::new("s", DataType::Dictionary(Box::new(DataType::Int32), Box::new(DataType::Utf8)), true),
-        _ => Field::new("s", DataType::List(Arc::new(Field::new_list_field(DataType::Int64, true))), true),
+        3 => Field::new("s", DataType::List(Arc::new(Field::new_list_field(DataType::Int64, true))), true),
+        5 => Field::new("s", DataType::List(Arc::new(Field::new_list_field(DataType::Utf8View, true))), true),
+        6 => Field::new("s", DataType::Struct(vec![Field::new("v", DataType::Utf8View, true)].into()), true),
+        _ => Field::new("s", DataType::Dictionary(Box::new(DataType::Int32), Box::new(DataType::Utf8View)), true),
     };
     let schema = Arc::new(Schema::new(vec![Field::new("i", DataType::Int64, true), f1]));
     let mut out = vec![];
     for _ in 0..nb {
-        let rows = *rng.pick(&[0usize, 1, 3, 17, 100]);
-        let cols = mk(rng, rows + 4);
+        let rows = if big { *rng.pick(&[0usize, 1, 300, 450]) } else { *rng.pick(&[0usize, 1, 3, 17, 100]) };
+        let off = *rng.pick(&[0usize, 1, 2, 7, 8, 9]);
+        let extra = if big { 400 } else { 4 };
+        let cols = mk(rng, rows + off + extra);
         let full = RecordBatch::try_new(schema.clone(), cols).unwrap();
-        // sliced batch (offset 2) of `rows` rows
-        out.push(full.slice(2, rows));
+        // sliced batch (random offset) of `rows` rows
+        out.push(full.slice(off, rows));
     }
     (schema, out)
 }
@@ -215,7 +297,7 @@ fn roundtrip(run: &mut Run, rng: &mut Rng) {
     let n = run.budget(120, 4000);
     let rt = tokio::runtime::Builder::new_current_thread().enable_all().build().unwrap();
     for i in 0..n {
-        let kind = rng.below(4);
+        let kind = rng.below(8);
         let codec = match rng.below(3) {
             0 => SpillCompression::Uncompressed,
             1 => SpillCompression::Lz4Frame,
